@@ -34,10 +34,12 @@ THEOREMS = ["JanetModel.Props.C09." + t for t in (
     "asm_operand_roundtrip", "asm_operand_rejects",                                      # assembler operand fields (asm . disasm)
     "env_slot_test_is_bit", "env_walk_visits_set_bits",                                  # closure env written from a live frame
     "roundtrip_code", "roundtrip_funcdef", "roundtrip_funcenv", "code_ids_agree", "roundtrip_code_top",   # functions, funcdefs, closure envs
+    "abstract_hook_roundtrip", "int64_hooks_paired", "int64_box_roundtrip", "channel_hooks_paired", "channel_roundtrip",  # abstract hook protocol
 )]
 
 CODE_OBLIGATIONS = ["JanetModel.Marsh.CodeObligations." + t for t in (
     "code_depths_match_model", "unmarshal_never_deeper", "def_field_order", "flag_bits",   # Code.lean vs the current marsh.c
+    "hook_calls_match_model",                                                              # Abstract.lean vs inttypes.c / ev.c hooks
 )]
 
 ENV = dict(os.environ, ASAN_OPTIONS="detect_leaks=0:abort_on_error=0", UBSAN_OPTIONS="print_stacktrace=1")
@@ -730,6 +732,40 @@ def run(ctx):
                               (cgstats["marshal_diffs"], cgstats["unmarshal_diffs"], json.dumps(cgdiffs[0])[:900]))
                 ctx.broken.append(broken[-1])
                 gdiffs += cgdiffs[:3]
+            # (D7) channel hook on the wire: model `marshalHook` with the channel items vs (marshal ch); model `unmarshalHook chanProg`
+            # reads the implementation's bytes back to the same state; direct oracle: items taken from the copy
+            chstats = {"channels": 0, "closed": 0, "with_items": 0, "max_items": 0, "oracle_fail": 0, "wire_diffs": 0, "read_diffs": 0}
+            rc, o, err = run_cmd([hxc, os.path.join(H, "codegraph.janet"), "chan", str(ctx.rng.below(2**31 - 1) + 1), str(150 if quick else 4000)], timeout=1800, env=ENV)
+            chl = [l.split(" ") for l in o.decode(errors="replace").splitlines() if l.startswith("chan ")]
+            if rc != 0:
+                violations.append(("channel-harness-crash", {"kind": "chan-crash", "rc": rc, "stderr": err.decode(errors="replace")[-2000:]}, "channel marshal harness crashed"))
+            name = b"core/channel"
+            cprefix = (bytes([lb.get("LB_ABSTRACT", 217), lb.get("LB_SYMBOL", 207), len(name)]) + name).hex()
+            chm = ctx.model(["chanhook %s %s %s %s" % (c[2], c[3], c[4], " ".join(x for x in c[6:] if x)) for c in chl] +
+                            ["chanread " + c[5][len(cprefix):] for c in chl], exe=exe) if exe and chl else None
+            for i, c in enumerate(chl):
+                chstats["channels"] += 1
+                chstats["closed"] += int(c[3])
+                items = [x for x in c[6:] if x]
+                chstats["with_items"] += 1 if items else 0
+                chstats["max_items"] = max(chstats["max_items"], len(items))
+                if c[1] != "ok":
+                    chstats["oracle_fail"] += 1
+                    violations.append(("channel-roundtrip", {"kind": "chan", "line": " ".join(c)[:3000]}, "a channel with queued items does not survive marshal/unmarshal: %s" % " ".join(c)[:200]))
+                if chm is not None:
+                    if not c[5].startswith(cprefix) or chm[i] != c[5][len(cprefix):]:
+                        chstats["wire_diffs"] += 1
+                        if chstats["wire_diffs"] == 1:
+                            broken.append("correspondence: channel hook bytes: implementation %s model %s%s" % (c[5][:300], cprefix, chm[i][:300]))
+                            ctx.broken.append(broken[-1])
+                    exp = ("ok %d %s %s %s %s" % (len(c[5][len(cprefix):]) // 2, c[2], c[3], c[4], " ".join(items))).strip()
+                    if chm[len(chl) + i].strip() != exp:
+                        chstats["read_diffs"] += 1
+                        if chstats["read_diffs"] == 1:
+                            broken.append("correspondence: channel unmarshal hook on the implementation's bytes: expected %s model %s" % (exp[:300], chm[len(chl) + i][:300]))
+                            ctx.broken.append(broken[-1])
+            stats["channel_hook"] = chstats
+            ctx.say("channel hook: %r" % chstats)
             # corpus: minimised past failures, replayed on every run
             cdir = os.path.join(VERIF, "corpus/C09")
             for fn in sorted(os.listdir(cdir)) if os.path.isdir(cdir) else []:
